@@ -4,7 +4,7 @@ warnings.filterwarnings('ignore')
 from harness import lib, oracles
 from harness.lib import dense, close, consistent
 from harness.props.c01 import gen_tt, rranks, shape_tags, snapshot, unchanged
-from harness.props.c07 import nonsym_op, max_ranks
+from harness.props.c07 import feasible_ranks, nonsym_op, max_ranks
 
 import scikit_tt.tensor_train as ttm
 from scikit_tt.tensor_train import TT
@@ -99,7 +99,7 @@ def side_case(seed):
     tol = 1e-7 * (1 + float(np.max(np.abs(w))))
     try:
         if clause == 'ritz':
-            x0 = gen_tt(rng, dims, [1] * order, [min(a, b) for a, b in zip(rranks(rng, order, 3), max_ranks(dims))], cplx, 'float')
+            x0 = gen_tt(rng, dims, [1] * order, feasible_ranks([min(a, b) for a, b in zip(rranks(rng, order, 3), max_ranks(dims))], dims), cplx, 'float')
             lam, xt, it = evp.als(A, x0, operator_gevp=G, repeats=rng.randint(1, 3), solver=solver, sigma=float(w[-1]) + 1.0)
             xv = dense(xt.cores).reshape(n)
             rq = np.vdot(xv, Am @ xv) / np.vdot(xv, Gm @ xv)
@@ -161,7 +161,7 @@ def side_case(seed):
             if abs(np.real(lam) - near) > 1e-5 * (1 + abs(near)):
                 return 'power_method (generalised) did not converge to the eigenvalue nearest its shift: %.8g vs %.8g' % (np.real(lam), near), desc
         elif clause == 'monotone':
-            x0 = gen_tt(rng, dims, [1] * order, [min(a, b) for a, b in zip(rranks(rng, order, 2), max_ranks(dims))], cplx, 'float')
+            x0 = gen_tt(rng, dims, [1] * order, feasible_ranks([min(a, b) for a, b in zip(rranks(rng, order, 2), max_ranks(dims))], dims), cplx, 'float')
             sig = float(w[-1]) + 0.5
             vals = [evp.als(A, x0, repeats=r, solver=solver, sigma=sig)[0] for r in (1, 2, 3)]
             desc['values'] = [float(v_) for v_ in vals]
